@@ -2,10 +2,12 @@
 
 Deciding artefact: spec/ConvCache.tla (threads, RLock with owner/depth, weak-key table
 code -> (options -> factory), the double-checked-locking protocol of PyToPy.transform_function one action per
-shared-memory step, environment actions Redefine / Collect).  Three parts, all decided by TLC:
+shared-memory step, environment actions Redefine / Collect / Rebind over a small heap: environments are
+identities whose closure cells hold values that can be equal and can be rebound, code objects are identities
+that live at addresses which the allocator hands on).  Three parts, all decided by TLC:
 
-1. design level  - TLC checks AtMostOnce, Coherent, NoAlias, NoStale, CacheCoherent, LockDiscipline,
-                   FastGetSafe (invariants) and Returns (liveness under weak fairness) on the model;
+1. design level  - TLC checks AtMostOnce, Coherent, Follows, NoAlias, NoStale, CacheCoherent, LockDiscipline,
+                   FastGetSafe, AddrOK (invariants) and Returns (liveness under weak fairness) on the model;
 2. code -> spec  - free-running multi-threaded runs of the real cache (vf/c10_stress.py) recorded as event
                    traces; spec/TraceConvCache.tla accepts a trace iff it is a behaviour of ConvCache
                    ("strict") and evaluates the property invariants on the observed history ("obs");
@@ -23,7 +25,8 @@ import multiprocessing
 from .. import common, tlc
 from .. import c10_stress, c10_replay
 
-INVARIANTS = ['TypeOK', 'AtMostOnce', 'Coherent', 'NoAlias', 'NoStale', 'CacheCoherent', 'LockDiscipline', 'FastGetSafe']
+INVARIANTS = ['TypeOK', 'AtMostOnce', 'Coherent', 'Follows', 'NoAlias', 'NoStale', 'CacheCoherent', 'LockDiscipline', 'FastGetSafe',
+              'AddrOK']
 INIT_FNS = {'Fns3': [[1, 1], [1, 2], [2, 3]], 'Fns4': [[1, 1], [1, 2], [2, 3], [2, 1]], 'Fns2': [[1, 1], [1, 2]]}
 
 
@@ -32,12 +35,14 @@ def _set(n):
 
 
 def model_cfg(spec='Spec', threads=3, symmetry=False, codes=3, envs=3, opts=2, fns='Fns3', req=1, depth=2, nest=1,
-              fail=1, redef=1, coll=1, mutant='none', invariants=INVARIANTS, properties=(), extra=''):
+              fail=1, redef=1, coll=1, vals=2, rebind=0, reuse=0, mutant='none', invariants=INVARIANTS, properties=(),
+              extra=''):
     th = '{' + ', '.join('t%d' % i for i in range(1, threads + 1)) + '}' if symmetry else _set(threads)
     lines = ['SPECIFICATION %s' % spec, 'CONSTANTS',
              ' Threads = %s' % th, ' Codes = %s' % _set(codes), ' Envs = %s' % _set(envs), ' Opts = %s' % _set(opts),
              ' InitFns <- %s' % fns, ' MaxReq = %d' % req, ' MaxDepth = %d' % depth, ' MaxNest = %d' % nest,
-             ' MaxFail = %d' % fail, ' MaxRedefine = %d' % redef, ' MaxCollect = %d' % coll, ' Mutant = "%s"' % mutant]
+             ' MaxFail = %d' % fail, ' MaxRedefine = %d' % redef, ' MaxCollect = %d' % coll, ' Vals = %s' % _set(vals),
+             ' MaxRebind = %d' % rebind, ' MaxReuse = %d' % reuse, ' Mutant = "%s"' % mutant]
     if symmetry:
         lines.append('SYMMETRY Perms')
     lines += ['INVARIANT %s' % i for i in invariants]
@@ -60,8 +65,14 @@ def tier_plan(tier):
                 # the full next-state relation (no reduction, no symmetry) with liveness, 2 threads
                 dict(name='mc2-live', workers=3, cfg=dict(spec='FairSpec', threads=2, redef=0, coll=1, nest=1, fail=1,
                                                          fns='Fns2', codes=2, properties=('Returns',))),
+                # the heap: captured variables rebound (cells of distinct environments hold equal values initially), a
+                # redefinition's code object at the address of a collected one
+                dict(name='mc2-heap', workers=3, cfg=dict(spec='RSpec', threads=2, symmetry=True, nest=0, fail=0,
+                                                         rebind=1, reuse=1)),
             ],
-            stress_procs=8, batch_events=30000, replay=dict(num=120, configs=[dict(threads=2, req=2), dict(threads=3, req=2), dict(threads=4, req=1)]),
+            stress_procs=8, batch_events=30000,
+            replay=dict(num=120, configs=[dict(threads=2, req=2), dict(threads=3, req=2), dict(threads=4, req=1),
+                                          dict(threads=1, req=4)]),     # the last one: sequential histories
             trace_workers=10)
     return dict(
         models=[
@@ -77,15 +88,18 @@ def tier_plan(tier):
             # liveness (no symmetry): every request returns
             dict(name='mc2-live', workers=2, cfg=dict(spec='FairSpec', threads=2, redef=0, coll=1, nest=1, fail=1,
                                                      properties=('Returns',))),
+            # the heap (rebinding of captured variables, address reuse): 3 threads reduced, 2 threads unreduced
+            dict(name='mc3-heap', workers=4, cfg=dict(spec='RSpec', threads=3, symmetry=True, nest=0, fail=0, rebind=1, reuse=1)),
+            dict(name='mc2-heap-unreduced', workers=3, cfg=dict(spec='Spec', threads=2, nest=0, fail=0, rebind=1, reuse=1)),
             # random behaviours of a much bigger instance (6 threads, 2 requests each, 4 function objects, 3 option
             # values, depth 3, 2 redefinitions, 2 collections), invariants checked in every state
             dict(name='sim6', workers=3, simulate=dict(num=5000, depth=500),
                  cfg=dict(spec='Spec', threads=6, codes=5, envs=3, opts=3, fns='Fns4', req=2, depth=3, nest=2, fail=2,
-                          redef=2, coll=2)),
+                          redef=2, coll=2, rebind=2, reuse=2)),
         ],
         stress_procs=9, batch_events=150000,
         replay=dict(num=3600, configs=[dict(threads=2, req=2), dict(threads=3, req=2), dict(threads=4, req=2),
-                                       dict(threads=6, req=1, fns='Fns4')]),
+                                       dict(threads=6, req=1, fns='Fns4'), dict(threads=1, req=4)]),
         trace_workers=4)
 
 
@@ -123,18 +137,21 @@ def judge_models(rep, results):
 # ---- code -> spec ----------------------------------------------------------------------------------------
 def trace_cfg(traces, modes):
     mx = lambda f: max([1] + [e[f] for t in traces for e in t['ev']])  # noqa: E731
+    vals = max([1] + [e['fac'][1] for t in traces for e in t['ev'] if e['ev'] == 'def'] +
+               [e['res'] for t in traces for e in t['ev'] if e['ev'] in ('rebind', 'look')])
     return '\n'.join([
         'SPECIFICATION TSpec', 'CONSTANTS',
         ' Threads = %s' % _set(mx('th')), ' Codes = %s' % _set(mx('key')), ' Envs = %s' % _set(mx('env')),
         ' Opts = %s' % _set(mx('sub')), ' InitFns <- Fns3',
         ' MaxReq = 1000000', ' MaxDepth = 3', ' MaxNest = 1000000', ' MaxFail = 1000000', ' MaxRedefine = 0',
-        ' MaxCollect = 1000000', ' Mutant = "none"',
+        ' MaxCollect = 1000000', ' Vals = %s' % _set(vals), ' MaxRebind = 1000000', ' MaxReuse = 1000000', ' Mutant = "none"',
         ' Modes = {%s}' % ', '.join('"%s"' % m for m in modes),
         'INVARIANT Report', 'CHECK_DEADLOCK FALSE']) + '\n'
 
 
 def corrupt(trace):
-    """Two corrupted copies of a recorded trace (binding demonstration): a flipped has() result, a lost release."""
+    """Corrupted copies of a recorded trace (binding demonstration): a flipped has() result, a lost release, a result
+    that read another value through its closure than the requesting function's cells hold."""
     out = []
     ev = trace['ev']
     i = next((k for k, e in enumerate(ev) if e['ev'] == 'has_end' and e['res'] == 0), None)
@@ -148,6 +165,12 @@ def corrupt(trace):
         c = copy.deepcopy(trace)
         del c['ev'][j]
         c['id'] = -2
+        out.append(c)
+    m = next((k for k, e in enumerate(ev) if e['ev'] == 'look'), None)
+    if m is not None:       # a result that read something else than the cells of the requesting function hold
+        c = copy.deepcopy(trace)
+        c['ev'][m]['res'] += 1
+        c['id'] = -3
         out.append(c)
     return out
 
@@ -188,7 +211,9 @@ def chunk_traces(traces, max_events):
 OBS_FIELDS = (('amo', 'AtMostOnce', 'the source transformation of one (code object, options) pair ran more than once'),
               ('coh', 'Coherent', 'a request was answered with a function that is not Bind(factory of (code(fn), options), env(fn))'),
               ('alias', 'NoAlias', 'two requests with different options or environments share a result'),
-              ('stale', 'NoStale', 'a function was served a factory made from another code object'))
+              ('stale', 'NoStale', 'a function was served a factory made from another code object'),
+              ('follow', 'Follows', 'a result is bound to closure cells that do not hold what the cells of the requesting '
+                                    'function hold (it follows the captured variables of another function)'))
 
 
 def judge_traces(rep, traces, by_id, scratch, workers, name):
@@ -253,9 +278,9 @@ def _save_trace(rep, t):
 
 
 # ---- spec -> code ----------------------------------------------------------------------------------------
-def sched_cfg(threads=3, req=2, fns='Fns3', codes=3, envs=3, opts=2, **kw):
+def sched_cfg(threads=3, req=2, fns='Fns3', codes=3, envs=3, opts=2, rebind=1, reuse=1, **kw):
     c = model_cfg(spec='SSpec', threads=threads, req=req, fns=fns, codes=codes, envs=envs,
-                  opts=opts, invariants=['Emit'], **kw)
+                  opts=opts, rebind=rebind, reuse=reuse, invariants=['Emit'], **kw)
     return c
 
 
@@ -397,10 +422,12 @@ def run(rep):
         rep.set('stress', dict(traces=len(traces), rejected=nrej, by_threads=_count_by(jobs, 'nthreads'), totals=agg,
                                event_kinds=kinds))
         needed = {'req', 'has_start', 'has_end', 'load', 'acquired', 'released', 'transform_begin', 'transform_ok',
-                  'transform_fail', 'parse_fail', 'store', 'inst', 'ret', 'err', 'def', 'collect'}
+                  'transform_fail', 'parse_fail', 'store', 'inst', 'ret', 'err', 'def', 'collect', 'rebind', 'look'}
         vacuity = []
         if needed - set(kinds):
             vacuity.append('stress traces never exercised: %s' % sorted(needed - set(kinds)))
+        if not agg.get('reuse_at_address'):
+            vacuity.append('no private generation of the stress runs got the address of its dead predecessor')
         rep.sample(dict(trace_id=traces[0]['id'], threads=jobs[0]['nthreads'], first_events=traces[0]['ev'][:12]))
 
         # ---- spec -> code
@@ -410,10 +437,15 @@ def run(rep):
         timing['replay_done_at'] = timer.s()
         acts = {}
         nsteps = 0
+        unrealised = reused = 0
         for r, j in zip(replays, sched['jobs']):
             if 'machinery' in r:
                 raise common.MachineryError(r['machinery'])
             nsteps += r['steps']
+            reused += r.get('reused', 0)
+            if r.get('unrealised'):
+                unrealised += 1     # the allocator did not hand the dead code object's block out again: not replayable
+                continue
             for h in j['hist']:
                 acts[h['a']] = acts.get(h['a'], 0) + 1
             if r['divergence'] is not None:
@@ -429,10 +461,15 @@ def run(rep):
                 rep.violation(d['signature'], d['what'], dict(d['witness'], schedule=dict(
                     hist=j['hist'], init_fns=j['init_fns'], layout=j['layout'])))
         rep.set('replay', dict(schedules=len(replays), steps_compared=nsteps, actions=acts,
+                               code_objects_at_a_dead_ones_address=reused, unrealised=unrealised,
                                by_threads=_count_by(sched['jobs'], 'threads')))
+        if unrealised > len(replays) // 4:
+            vacuity.append('%d of %d schedules could not be realised (address reuse)' % (unrealised, len(replays)))
+        if not reused:
+            vacuity.append('no replayed schedule placed a code object at the address of a dead one')
         all_actions = {'Start', 'HasBegin', 'FastRead', 'HasEnd', 'FastGet', 'Acquire', 'ReCheck', 'LockGet', 'TransformBegin',
                        'Nested', 'ParseFail', 'TransformFail', 'TransformOk', 'Store', 'Release', 'ReleaseFail', 'Raise', 'Instantiate',
-                       'Return', 'Redefine', 'Collect'}
+                       'Return', 'Redefine', 'Collect', 'Rebind'}
         if all_actions - set(acts):
             vacuity.append('replayed schedules never took: %s' % sorted(all_actions - set(acts)))
         if sched['jobs']:
@@ -520,26 +557,44 @@ def replay(path):
 
 # ---- self-test: every invariant can fail; corrupted evidence is rejected -----------------------------------
 MUTANT_EXPECT = [('norecheck', 'AtMostOnce'), ('dropopts', 'NoAlias'), ('keybyenv', 'NoStale'),
-                 ('bindfirst', 'Coherent'), ('earlyrelease', 'LockDiscipline'), ('earlyrelease', 'AtMostOnce')]
+                 ('bindfirst', 'Coherent'), ('earlyrelease', 'LockDiscipline'), ('earlyrelease', 'AtMostOnce'),
+                 ('bindequal', 'Follows'), ('memoaddr', 'NoStale')]
+# the history dimension matters: without a rebinding / without address reuse the same mutants pass these invariants
+MUTANT_CONTROL = [('bindequal', 'Follows', dict(rebind=0)), ('memoaddr', 'NoStale', dict(reuse=0, threads=1))]
+
+
+def _selftest_bounds(mutant):
+    if mutant == 'keybyenv':
+        return dict(redef=1, coll=0, req=2)
+    if mutant == 'bindequal':
+        return dict(redef=0, coll=0, req=1, rebind=1)
+    if mutant == 'memoaddr':
+        return dict(redef=1, coll=1, req=2, reuse=1)
+    return dict(redef=0, coll=0, req=1)
 
 
 def selftest():
     ok = True
     for mutant, inv in MUTANT_EXPECT:
-        cfg = model_cfg(spec='Spec', threads=2, mutant=mutant, invariants=[inv], nest=0, fail=0,
-                        redef=1 if mutant == 'keybyenv' else 0, coll=0, req=2 if mutant == 'keybyenv' else 1)
+        cfg = model_cfg(spec='Spec', threads=2, mutant=mutant, invariants=[inv], nest=0, fail=0, **_selftest_bounds(mutant))
         res = tlc.run_tlc('ConvCache', cfg, workers=4, timeout=600, name='c10_self_' + mutant)
         hit = inv in res.violated
         print('selftest: Mutant=%-12s %-15s %s (%d states)' % (mutant, inv, 'violated as expected' if hit else 'NOT VIOLATED', res.distinct))
         ok = ok and hit
-    cfg = model_cfg(spec='Spec', threads=2, fns='Fns2', codes=3, coll=1, redef=1, req=1)
+    for mutant, inv, over in MUTANT_CONTROL:
+        kw = dict(dict(threads=2), **dict(_selftest_bounds(mutant), **over))
+        cfg = model_cfg(spec='Spec', mutant=mutant, invariants=[inv], nest=0, fail=0, **kw)
+        res = tlc.run_tlc('ConvCache', cfg, workers=4, timeout=900, name='c10_self_ctl_' + mutant)
+        res.require_ok('selftest control run')
+        print('selftest: Mutant=%-12s %-15s holds with %s (%d states): the history is what exposes it' % (mutant, inv, over, res.distinct))
+    cfg = model_cfg(spec='Spec', threads=2, fns='Fns2', codes=3, coll=1, redef=1, req=1, rebind=1, reuse=1)
     res = tlc.run_tlc('ConvCache', cfg, workers=4, timeout=900, name='c10_self_cov', coverage=True)
     res.require_ok('coverage run')
     import re
     cov = {m.group(1): int(m.group(2)) for m in re.finditer(r'(?m)^<(\w+) line [^>]*>: (\d+):\d+', res.stdout)}
     wanted = ['SomeStart', 'HasBegin', 'FastRead', 'HasEnd', 'FastGet', 'Acquire', 'ReCheck', 'LockGet', 'TransformBegin',
               'SomeNested', 'ParseFail', 'TransformFail', 'TransformOk', 'Store', 'Release', 'ReleaseFail', 'Raise', 'Instantiate', 'Return',
-              'SomeRedefine', 'SomeCollect']
+              'SomeRedefine', 'SomeCollect', 'SomeRebind']
     missing = [a for a in wanted if cov.get(a, 0) == 0 and cov.get(a.replace('Some', ''), 0) == 0]
     print('selftest: coverage of actions: %s' % ('all taken' if not missing else 'NEVER TAKEN: %s' % missing))
     ok = ok and not missing
@@ -554,8 +609,10 @@ def selftest():
         good = (1, 'strict') in ends
         bad1 = (-1, 'strict') not in ends
         bad2 = (-2, 'strict') not in ends
-        print('selftest: recorded trace accepted=%s, flipped has_end rejected=%s, removed released rejected=%s' % (good, bad1, bad2))
-        ok = ok and good and bad1 and bad2
+        bad3 = (-3, 'strict') not in ends
+        print('selftest: recorded trace accepted=%s, flipped has_end rejected=%s, removed released rejected=%s, '
+              'wrong captured value rejected=%s' % (good, bad1, bad2, bad3))
+        ok = ok and good and bad1 and bad2 and bad3
     finally:
         common.rmtree(scratch)
     print('selftest:', 'PASS' if ok else 'FAIL')
